@@ -210,9 +210,10 @@ P["C15"] = dict(
     obligations=ob("JSight.Props.C15",
         ("Props.C15.C15_wellformed", "whatever the example builder emits is the rendering of a valid JSON tree which the scanner reads back"),
         ("Props.C15.C15_build_is_render", "builder bytes = rendering of the builder's tree"),
-        ("Props.C15.C15_self_valid", "reference-free schemas accepted by Check: the emitted bytes are the whole EXAMPLE document in compact layout and Validate accepts it (any literal rule semantics)")),
+        ("Props.C15.C15_self_valid", "reference-free schemas accepted by Check: the emitted bytes are the whole EXAMPLE document in compact layout and Validate accepts it (any literal rule semantics)"),
+        ("Props.C15.C15_self_valid_refs", "with user-type references over any (also recursive) type table: if the builder completes without a recursion cut-off, the emitted bytes are the compact text of the built document and Validate accepts it")),
     runs=[{"cmd": ["example-diff"]}, {"cmd": ["c15-example"]}],
-    partial="well-formedness is a theorem for all schemas; self-validation is a theorem for reference-free schemas and, with references / or / recursion cut-offs, holds outside the known-finding classes (explored, not proved)",
+    partial="well-formedness is a theorem for all schemas; self-validation is a theorem for reference-free schemas and for schemas with type references whenever no recursion cut-off happens; with or-rules in containers, key shortcuts and cut-offs it holds outside the known-finding classes (explored, not proved)",
     level_text="Proof (partial): the example builder (with the separator/escaping fix) emits the rendering of a valid JSON tree and the scanner reads back exactly that tree (theorem, all schemas/type tables). Tie: model bytes vs real Example() on generated schemas with mutually referring types. Search: json.Valid(Example()), Validate(Example()) == nil, plain-JSON schemas give their compact example.",
     level_note="Trusted: Lean kernel; key shortcuts/enum rules in examples validated only; K-C15-* known findings by structural class.",
     technique="Lean 4 theorem (builder output = rendering of a valid tree) + differential + exploration")
